@@ -1990,12 +1990,13 @@ impl VectorEngine {
                 let same_dim = index.get_vector(0).is_some_and(|v| v.len() == query.len());
                 if !mapping.is_empty() && same_dim {
                     let neighbors = index.search(query, top_k);
-                    let prefix = Self::embedding_prefix();
+                    // The mapping holds user keys (build_hnsw_index takes them from
+                    // list_keys, which already removed the storage prefix).
                     let mut results: Vec<SearchResult> = neighbors
                         .into_iter()
                         .filter_map(|(idx, score)| {
                             mapping.get(idx).map(|key| SearchResult {
-                                key: key.strip_prefix(prefix).unwrap_or(key).to_string(),
+                                key: key.clone(),
                                 score,
                             })
                         })
